@@ -144,6 +144,30 @@ fn reader_side(case: &str, t: i32, shp: &[u8], shx: &[u8], n: usize, written: &[
                 return bad("reader.iter-after-seek", J::obj(vec![("seek", J::UInt(k as u64)), ("items", J::UInt(got as u64)), ("expected", J::UInt((n - k) as u64))]));
             }
         }
+        // ... and after k good steps followed by one typed step that asks for another type
+        // (refused, or not: its outcome is not judged here), random access still returns record i
+        if n >= 2 {
+            for k in [0, n / 2, n - 2] {
+                let mut r = match ShapeReader::with_shx(c(shp), c(shx)) {
+                    Ok(r) => r,
+                    Err(e) => return bad("reader.open", J::s(err_class(&e))),
+                };
+                let _ = r.iter_shapes().take(k).count();
+                let refused = if t == 1 { r.iter_shapes_as::<Polyline>().next().map(|x| x.is_err()) } else { r.iter_shapes_as::<Point>().next().map(|x| x.is_err()) };
+                for i in [k + 1, k, 0] {
+                    if i >= n {
+                        continue;
+                    }
+                    let got = r.read_nth_shape(i).map(|x| x.map(|s| s.d()).map_err(|e| err_class(&e)));
+                    if !matches!(&got, Some(Ok(d)) if *d == seq[i]) {
+                        return bad(
+                            "reader.nth-after-typed-step",
+                            J::obj(vec![("good_steps", J::UInt(k as u64)), ("typed_step_refused", refused.map(J::Bool).unwrap_or(J::Null)), ("index", J::UInt(i as u64)), ("got", match got { Some(Ok(d)) => d.to_json(), Some(Err(e)) => J::s(e), None => J::s("None") })]),
+                        );
+                    }
+                }
+            }
+        }
         for i in [n, n + 1, n + 7, usize::MAX - 1, usize::MAX] {
             if with_idx.read_nth_shape(i).is_some() {
                 return bad("reader.nth-past-end", J::obj(vec![("index", J::UInt(i as u64))]));
